@@ -78,6 +78,9 @@ def form_case(ctx, form):
                 ctx.mismatch("body refs", form, obs["body"], m["body"])
         elif m["outcome"] == "error":
             ctx.mismatch("model rejects, implementation accepts", form, "ok", m["err"])
+            if m["err"].get("kind") in ("dupSibling", "dupSection", "ambiguousRef"):
+                # names that the validation must keep unambiguous were accepted
+                ctx.fail(Failure("accepted-clash", f"a sheet with clashing names was converted: {m['err']}", {"form": form}))
     elif r["class"] == "pyxform" and m["outcome"] == "ok":
         ctx.mismatch("implementation rejects, model accepts", form, r["msg"][:300], "ok")
     ctx.record({"form": form}, nontrivial)
@@ -103,6 +106,12 @@ def explore(ctx, factor, bs):
             if clash is not None:
                 form = clash
                 ctx.count("name_clash")
+        if rng.random() < 0.12:
+            # clashes among generated meta children (several audit rows at any depth) and inside bodyless groups
+            mc = formcommon.inject_meta_clash(rng, form)
+            if mc is not None:
+                form = mc
+                ctx.count("meta_clash")
         form_case(ctx, form)
 
 
